@@ -577,9 +577,64 @@ def _wires(out, n, net0, sym, budget, split):
                         label=tag + ",first=" + FRAME[fix[0]] + "".join("/%d" % v for v in fix[1:])))
 
 
+@meta(bounds="a node with an application and TWO adapters (networks 1 and 2, bound in symbolic order - the one bound last is the "
+             "'local' one); a router station on network 1 or 2 (symbolic) announces destination network 30 or 31 (symbolic) with "
+             "I-Am-Router-To-Network; the application then sends a unicast to a station of that network: exactly one frame, on "
+             "the network the router was heard on, addressed to that router, with the destination network in its header - and "
+             "nothing on the other network",
+      outside="more than two adapters; several announcements (ric_wire)",
+      stubs=["bacpypes.vlan.Network (real) as the medium; deferred deliveries run by core.run_once-style draining"], assumes=[])
+def app_on_two_nets(d):
+    from ..world import World
+    from ..ref import wire as _wire_ref
+    w = World()
+    lans = {1: Network(name="n1", broadcast_address=LocalBroadcast()), 2: Network(name="n2", broadcast_address=LocalBroadcast())}
+    seen = {1: [], 2: []}
+    for k in (1, 2):
+        def tap(pdu, k=k, orig=lans[k].process_pdu):
+            seen[k].append((pdu.pduSource, pdu.pduDestination, bytes(pdu.pduData)))
+            return orig(pdu)
+        lans[k].process_pdu = tap
+    nsap = NetworkServiceAccessPoint()
+    nse = NetworkServiceElement()
+    nse._startup_disabled = True
+    bind(nse, nsap)
+    app = Client()
+    app.confirmation = lambda pdu: None
+    bind(app, nsap)
+    order = d.pick([(1, 2), (2, 1)], 'bind_order')
+    for net in order:
+        nsap.bind(Node(LocalStation(9), lans[net]), net, LocalStation(9))
+    heard_on = d.pick([1, 2], 'router_on_network')
+    dnet = d.pick([30, 31], 'destination_network')
+    router = Client()
+    router.confirmation = lambda pdu: None
+    bind(router, Node(LocalStation(50), lans[heard_on]))
+    router.request(PDU(bytes([0x01, 0x80, 0x01, dnet >> 8, dnet & 255]), destination=LocalBroadcast()))
+    w.run()
+    for k in (1, 2):
+        del seen[k][:]
+    req = UnconfirmedRequestPDU(8)
+    req.put_data(b"\x5a")
+    req.pduDestination = RemoteStation(dnet, 5)
+    app.request(req)
+    w.run()
+    other = 2 if heard_on == 1 else 1
+    data_frames = {k: [(s_, dd, x) for (s_, dd, x) in seen[k] if not _wire_ref.parse_npdu(x)["net_msg"]] for k in (1, 2)}
+    if len(data_frames[heard_on]) != 1 or data_frames[other]:
+        raise Violation("app-frame-on-wrong-network", heard_on=heard_on, bind_order=list(order),
+                        frames={str(k): len(v) for k, v in data_frames.items()})
+    s_, dd, x = data_frames[heard_on][0]
+    n = _wire_ref.parse_npdu(x)
+    if dd != LocalStation(50) or n["dnet"] != dnet or n["dadr"] != bytes([5]):
+        raise Violation("app-frame-misaddressed", to=str(dd), dnet=n["dnet"])
+    d.reach()
+
+
 def instances(tier):
     q = tier == "quick"
     out = []
+    out.append(Inst(app_on_two_nets, {}, budget=90))
     FULL = (2, 3, 4)
     # sequences from the empty cache
     out.append(Inst(ric_ops, dict(n=2, S=2, R=3, D=4), budget=60, label="n=2,dom=2x3x4"))
